@@ -6,6 +6,7 @@ import (
 	"bytes"
 	"errors"
 	"fmt"
+	"io"
 	"reflect"
 	"strings"
 
@@ -40,6 +41,9 @@ type Case struct {
 	Opts    []opt.Spec `json:"call_opts"` // given to the Marshal* call
 	Funcs   []FuncSpec `json:"funcs,omitempty"`
 	Entry   int        `json:"entry"` // 0 Marshal, 1 MarshalWrite, 2 MarshalEncode depth 0, 3 nested in array, 4 nested in object
+	Pad     int        `json:"pad,omitempty"`    // the value is preceded by a string member of this many bytes (large outputs, flush thresholds)
+	Poison  bool       `json:"poison,omitempty"` // a MarshalWrite that fails half way runs first (pooled encoder state)
+	Plain   bool       `json:"plain,omitempty"`  // writers are plain io.Writers instead of *bytes.Buffer
 }
 
 var marshalOptNames = []string{
@@ -82,6 +86,11 @@ func genCase(user bool) func(t *rapid.T) Case {
 			anyCfg = cfg
 		}
 		c.Desc = tv.GenDesc(t, cfg)
+		if rapid.IntRange(0, 7).Draw(t, "pad?") == 0 {
+			c.Pad = rapid.SampledFrom([]int{1, 40, 200, 3000, 4050, 4090, 4096, 4100, 6000, 20000}).Draw(t, "pad")
+		}
+		c.Poison = rapid.IntRange(0, 5).Draw(t, "poison") == 0
+		c.Plain = rapid.Bool().Draw(t, "plain")
 		if cfg.Formats && rapid.IntRange(0, 3).Draw(t, "formatopt") != 0 {
 			c.Opts = append(c.Opts, opt.B("ExperimentalSupportFormatTag", true))
 		}
@@ -248,6 +257,24 @@ func Run(c Case) error {
 	all := append(append([]opt.Spec(nil), c.EncOpts...), c.Opts...)
 	utf8, dup := effective(all)
 	in := v.Interface()
+	if c.Pad > 0 {
+		// struct{P string; V T}: a long first member pushes the value past the flush thresholds
+		pt := reflect.StructOf([]reflect.StructField{{Name: "P", Type: reflect.TypeFor[string]()}, {Name: "V", Type: v.Type()}})
+		pv := reflect.New(pt).Elem()
+		pv.Field(0).SetString(strings.Repeat("p", c.Pad))
+		pv.Field(1).Set(v)
+		v = pv
+		in = v.Interface()
+	}
+	if c.Poison {
+		// a MarshalWrite to a plain writer that fails after part of the output was buffered
+		_ = rt.Guard(func() {
+			_ = json.MarshalWrite(&plainW{}, struct {
+				A string
+				C chan int
+			}{A: "stale-bytes-from-a-failed-call"})
+		})
+	}
 	// pass a pointer half of the time so that pointer-receiver methods are addressable
 	if c.Entry%2 == 1 {
 		p := reflect.New(v.Type())
@@ -264,12 +291,29 @@ func Run(c Case) error {
 		case 0:
 			out, merr = json.Marshal(in, append(append([]json.Options(nil), encOpts...), callOpts...)...)
 		case 1:
+			if c.Plain {
+				var pw plainW
+				merr = json.MarshalWrite(&pw, in, append(append([]json.Options(nil), encOpts...), callOpts...)...)
+				out = pw.b
+				break
+			}
 			var buf bytes.Buffer
 			merr = json.MarshalWrite(&buf, in, append(append([]json.Options(nil), encOpts...), callOpts...)...)
 			out = buf.Bytes()
 		default:
 			var buf bytes.Buffer
-			enc := jsontext.NewEncoder(&buf, encOpts...)
+			var w io.Writer = &buf
+			var pw plainW
+			if c.Plain {
+				w = &pw
+			}
+			got := func() []byte {
+				if c.Plain {
+					return pw.b
+				}
+				return buf.Bytes()
+			}
+			enc := jsontext.NewEncoder(w, encOpts...)
 			switch c.Entry {
 			case 2:
 				wantNL = true
@@ -301,11 +345,11 @@ func Run(c Case) error {
 				// the closing token was refused although MarshalEncode reported success:
 				// the value written cannot have been exactly one value
 				merr = fmt.Errorf("closing token refused after a successful MarshalEncode: %w", merr)
-				out = buf.Bytes()
+				out = got()
 				prefix = "REFUSED"
 				return
 			}
-			out = buf.Bytes()
+			out = got()
 		}
 	})
 	_ = suffix
@@ -579,3 +623,9 @@ func genTimes(t *rapid.T) Case {
 	c.Val = tv.GenVal(t, d, tv.ValCfg{Zones: true, TimeWide: true})
 	return c
 }
+
+// plainW is an io.Writer that is not a *bytes.Buffer (the library pools and
+// flushes differently for it).
+type plainW struct{ b []byte }
+
+func (w *plainW) Write(p []byte) (int, error) { w.b = append(w.b, p...); return len(p), nil }
